@@ -49,12 +49,12 @@ Proof. vm_compute. repeat split. discriminate. Qed.
 
    (for every fitting oracle `req`, the real `_required_space` being the instance `real_req T sr`) is FALSE of
    the faithful model: finding C03-preserved-newline-offset, refuted below on the model instantiated with the
-   real heuristics.  Under the decidable guard `preserved_newline false T = false` (the class of the finding)
+   real heuristics.  Under the decidable guard `verbatim_newline false T = false` (the class of the finding)
    the statement is what the check searches counterexamples for on every run (none outside the class); its
    proof is reduced here to part (A) - whose relation admits inner variants of texts - plus the text-run lemma
    below.  PARTIAL: the node-level induction
 
-     Lemma wrap_is_variant : preserved_newline false T = false -> nft t ->
+     Lemma wrap_is_variant : verbatim_newline false T = false -> nft t ->
        ws_variant t (merge_tree (seen (wrap_chunk ind align w req sr aft t)))
 
    (invariant: writer offset = 0 only at the start of the stream or after a newline that is legal before the
@@ -66,7 +66,7 @@ Proof. exact wrapped_refuted. Qed.
 Print Assumptions C03_wrapped_refuted.
 
 (* the witness lies in the class of the finding (the guard is not vacuous in either direction: see the Example) *)
-Theorem C03_wrapped_witness_in_class : preserved_newline false c03_witness = true.
+Theorem C03_wrapped_witness_in_class : verbatim_newline false c03_witness = true.
 Proof. exact (proj1 (proj2 (proj2 c03_witness_facts))). Qed.
 
 (* text run: normalised text k written over lines separated by any non-empty whitespace run (newline plus the
@@ -96,7 +96,7 @@ Print Assumptions C03_text_escape_roundtrip.
 
 Example C03_wrapped_example :
   let t := Tag [] [114%N] [] [Text [97; 97; 32; 98; 98; 32]%N; Tag [] [105%N] [] [Text [99; 99]%N]; Text [32; 100; 100; 32; 101; 101]%N] in
-  reduce_model t = t /\ preserved_newline false t = false /\
+  reduce_model t = t /\ verbatim_newline false t = false /\
   wrap_str [SP; SP] false 5%Z t [] <> render (plain t) /\
   reduce_model (wrap_seen [SP; SP] false 5%Z t []) = t.
 Proof. exact wrapped_ok_example. Qed.
